@@ -38,6 +38,7 @@ THEOREMS = [
     "HedVerif.C05.normDesc_fixed",
     "HedVerif.C05.blank_description_counterexample",
     "HedVerif.C05.loaded_descriptions_normal",
+    "HedVerif.C05.tsv_writes_all_sheets",
     "HedVerif.C05.escape_roundtrip",
     "HedVerif.C05.extend_here_counterexample",
     "HedVerif.C05.nowiki_counterexample",
@@ -1272,6 +1273,182 @@ def grammar_fuzz(ctx, impl, sample_lines, n_attr, n_line):
             ctx.disagree("escapeNl/unescapeNl = str.replace", {"kind": "escape", "s": s}, a, esc)
 
 
+# ------------------------------------------------------------------ save histories on one output location
+
+# the ten sheets of a TSV save (`create_empty_dataframes`); written here independently of hed's constants
+TSV_SHEETS = ["Structure", "Tag", "Unit", "UnitClass", "UnitModifier", "ValueClass", "AnnotationProperty",
+              "DataProperty", "ObjectProperty", "AttributeProperty"]
+MINI_STD = """HED version="1.0.0"
+
+'''Prologue'''
+
+!# start schema
+
+'''Alpha''' <nowiki>[A top tag.]</nowiki>
+* Beta <nowiki>[A child.]</nowiki>
+
+!# end schema
+
+'''Unit classes'''
+
+'''Unit modifiers'''
+
+'''Value classes'''
+
+'''Schema attributes'''
+
+'''Properties'''
+
+'''Epilogue'''
+
+!# end hed
+"""
+
+
+def history_schema(impl, label):
+    """schemas a history can save: a bundled one, a small partnered library (most sections empty when saved unmerged),
+    a stand-alone schema whose sections other than the tags are all empty"""
+    if label == "small-lib":
+        return impl.from_string(BLANK_LIB.replace("@D@", "A description."), ".mediawiki")
+    if label == "mini-standard":
+        return impl.from_string(MINI_STD, ".mediawiki")
+    return impl.load_schema_version(label)
+
+
+def _tree_bytes(root):
+    out = {}
+    for d, _, fs in os.walk(root):
+        for f in fs:
+            q = os.path.join(d, f)
+            out[os.path.relpath(q, root)] = open(q, "rb").read()
+    return out
+
+
+def _digests(tree):
+    import hashlib
+    return {k.replace(os.sep, "/"): hashlib.sha1(v).hexdigest()[:16] for k, v in tree.items()}
+
+
+def _frames_digest(schema, merged):
+    """the ten frames `Schema2DF.process_schema` hands to `save_dataframes`, each as the digest of its TSV text"""
+    import csv
+    import hashlib
+    from hed.schema.schema_io.schema2df import Schema2DF
+    out = []
+    for suffix, df in Schema2DF().process_schema(schema, merged).items():
+        text = df.to_csv(sep="\t", index=False, header=True, quoting=csv.QUOTE_NONE, lineterminator="\n")
+        out.append([suffix, hashlib.sha1(text.encode("utf-8")).hexdigest()[:16]])
+    return out
+
+
+def _save_at(schema, fmt, path, merged):
+    if fmt == "tsv":
+        schema.save_as_dataframes(path, merged)
+    elif fmt == "xml":
+        schema.save_as_xml(path, merged)
+    else:
+        schema.save_as_mediawiki(path, merged)
+
+
+def run_history(ctx, impl, fmt, form, steps, cache=None):
+    """`steps` = [(schema label, save_merged)] saved one after the other to ONE location, a load after every save.
+    Oracles: (1) the files at the location after a save are, byte for byte, those of the same save into a fresh
+    location (a function of the saved schema only, whatever an earlier save left there); for TSV they are exactly the
+    ten sheets; (2) the load equals the schema just saved."""
+    cache = {} if cache is None else cache
+    case = {"kind": "save-history", "fmt": fmt, "form": form, "steps": [[l, bool(m)] for l, m in steps]}
+    ctx.case(("save-history", fmt, form, json.dumps(case["steps"])), nontrivial=True)
+    ctx.count(f"save-history:{fmt}:{form}:{len(steps)}")
+    leaf = {"tsv": "hist.tsv" if form == "base" else "hist", "xml": "hist.xml", "mediawiki": "hist.mediawiki"}[fmt]
+    root = impl.scratch()
+    os.makedirs(root)
+    loc = os.path.join(root, leaf)
+    model_reqs = []
+    try:
+        for i, (label, merged) in enumerate(steps):
+            if label not in cache:
+                cache[label] = history_schema(impl, label)
+            schema = cache[label]
+            at = dict(case, step=i)
+            fresh_root = impl.scratch()
+            os.makedirs(fresh_root)
+            before = _digests(_tree_bytes(root))
+            try:
+                _save_at(schema, fmt, loc, merged)
+                _save_at(schema, fmt, os.path.join(fresh_root, leaf), merged)
+                here, fresh = _tree_bytes(root), _tree_bytes(fresh_root)
+            finally:
+                shutil.rmtree(fresh_root, ignore_errors=True)
+            if fmt == "tsv":
+                # model: `saveFrames` on the files found at the location and the frames the writer produced
+                model_reqs.append((at, {"op": "c05.savefiles", "base": "hist" if form == "base" else "hist/hist",
+                                        "old": sorted([k, v] for k, v in before.items()),
+                                        "sheets": _frames_digest(schema, merged)}, _digests(here)))
+            if fmt == "tsv":
+                stem = "hist_" if form == "base" else os.path.join("hist", "hist_")
+                want = sorted(f"{stem}{k}.tsv" for k in TSV_SHEETS)
+                if sorted(fresh) != want:
+                    ctx.violation("tsv-save-writes-ten-sheets", at,
+                                  {"written_into_fresh_location": sorted(fresh), "missing": sorted(set(want) - set(fresh)),
+                                   "unexpected": sorted(set(fresh) - set(want))})
+            if here != fresh:
+                bad = sorted(k for k in set(here) | set(fresh) if here.get(k) != fresh.get(k))
+                ctx.violation("saved-files-depend-on-earlier-save", at,
+                              {"files_differing_from_a_fresh_save": bad[:10],
+                               "only_at_reused_location": sorted(set(here) - set(fresh))[:10],
+                               "only_in_fresh_save": sorted(set(fresh) - set(here))[:10]})
+            try:
+                got = impl.load_schema(loc)
+            except impl.HedFileError as e:
+                ctx.violation("history-reload-fails", at, f"{type(e).__name__}: {e}"[:300])
+                continue
+            if not (got == schema):
+                ctx.violation("history-reload-differs", at, first_diff(schema, got))
+    finally:
+        shutil.rmtree(root, ignore_errors=True)
+    if model_reqs:
+        for (at, req, real), a in zip(model_reqs, ctx.model.batch([r for _, r, _ in model_reqs])):
+            predicted = {k: v for k, v in a["files"]}
+            if predicted != real or not a["keysAreTheTenSheets"] or any(v is None for _, v in a["load"]):
+                bad = sorted(k for k in set(predicted) | set(real) if predicted.get(k) != real.get(k))
+                ctx.disagree("saveFrames = save_dataframes (files at the location after a TSV save)", at,
+                             {"differing": {k: predicted.get(k) for k in bad[:10]}, "tenSheets": a["keysAreTheTenSheets"]},
+                             {"differing": {k: real.get(k) for k in bad[:10]}})
+
+
+def run_save_histories(ctx, impl, names, quick):
+    """2-3 saves of different schemas / modes into the same TSV folder or base name (XML and MediaWiki: the same
+    file), each followed by a load: a schema survives saving and reloading whatever was saved there before"""
+    rng = ctx.rng
+    cache = {}
+    partnered = [n for n in names if n not in LEGACY and impl.load_schema_version(n).with_standard]
+    standard = [n for n in names if n not in LEGACY and n not in partnered]
+    pool = [(n, True) for n in standard] + [(n, m) for n in partnered for m in (True, False)] + \
+           [("small-lib", True), ("small-lib", False), ("mini-standard", True)]
+    fixed = []
+    if standard and partnered:
+        fixed.append([(standard[0], True), (partnered[-1], False)])          # every sheet populated, then most empty
+        fixed.append([(partnered[0], True), (partnered[0], False), (standard[0], True)])
+    if standard:
+        fixed.append([(standard[0], True), ("mini-standard", True), ("small-lib", False)])
+    fixed.append([("small-lib", True), ("small-lib", False)])
+    for k, steps in enumerate(fixed):
+        for fmt, form in (("tsv", "dir"), ("tsv", "base"), ("xml", "file"), ("mediawiki", "file")):
+            if fmt == "tsv" or k == 0 or not quick:          # quick tier: the single-file controls once
+                run_history(ctx, impl, fmt, form, steps, cache)
+        ctx.check_time()
+    for _ in range(4 if quick else 60):
+        steps = []
+        while len(steps) < rng.randint(2, 3):
+            c = rng.choice(pool)
+            if not steps or steps[-1] != c:
+                steps.append(c)
+        fmt, form = rng.choice([("tsv", "dir"), ("tsv", "dir"), ("tsv", "base"), ("tsv", "base"), ("xml", "file"),
+                                ("mediawiki", "file")])
+        run_history(ctx, impl, fmt, form, steps, cache)
+        ctx.check_time()
+
+
 # ------------------------------------------------------------------ driver of the check
 
 def compliance_codes(schema):
@@ -1548,7 +1725,9 @@ def run(ctx):
                          "and value classes of their own, a malformed "
                          "stream (format delimiters) that must be rejected, four probe families for the registered "
                          "findings, MediaWiki and TSV sources with a blank description (read as None, round trip in "
-                         "every format and mode: defect fixed by 391436a); model: every attribute string and wiki line of every written entry, generated and "
+                         "every format and mode: defect fixed by 391436a), save histories (2-3 saves of different schemas / "
+                         "modes into ONE TSV folder or base name, XML / MediaWiki file as controls, a load after each "
+                         "save: files byte-equal to a fresh save, exactly ten sheets, load = schema just saved); model: every attribute string and wiki line of every written entry, generated and "
                          "mutated attribute strings / lines; non-trivial = a schema actually saved and reloaded, or an "
                          "input the reader accepts")
     ctx.notes.append("XML text <-> tree (ElementTree) and pandas cell quoting run for real on the implementation side; the Lean "
@@ -1594,6 +1773,7 @@ def run(ctx):
         run_blank_description_probe(ctx, impl)
         run_partnered_units(ctx, impl, files, names, quick)
         run_rooted(ctx, impl, files, names, quick)
+        run_save_histories(ctx, impl, names, quick)
         # generated edits
         n_schemas = 8 if quick else 160
         per = 5
@@ -1631,6 +1811,8 @@ def replay(ctx, rec):
                      with_model=True)
         elif kind == "multi-library":
             run_merged_refusal(ctx, impl)
+        elif kind == "save-history":
+            run_history(ctx, impl, case["fmt"], case["form"], [tuple(x) for x in case["steps"]])
         elif kind == "blank-description":
             s = blank_source(impl, case["source"], case["blank"])
             print("source:", case["source"], "blank:", repr(case["blank"]), "loaded descriptions:",
